@@ -5679,6 +5679,26 @@ impl BytecodeVM {
                 Ok(OpResult::Continue)
             }
 
+            Op::HasPrivateField {
+                dst,
+                obj,
+                class_brand,
+                field_name,
+            } => {
+                let field_name_str = self.get_string_constant(field_name).ok_or_else(|| {
+                    JsError::internal_error("Invalid private field name constant")
+                })?;
+                let JsValue::Object(obj_ref) = self.get_reg(obj) else {
+                    return Err(JsError::type_error(
+                        "Cannot use 'in' operator to search for a private member in a non-object",
+                    ));
+                };
+                let key = crate::value::PrivateFieldKey::new(class_brand, field_name_str);
+                let found = obj_ref.borrow().get_private_field(&key).is_some();
+                self.set_reg(dst, JsValue::Boolean(found));
+                Ok(OpResult::Continue)
+            }
+
             Op::SetPrivateField {
                 obj,
                 class_brand,
